@@ -343,6 +343,22 @@ var transSpecs = []transSpec{
 				"recv.base.WithOptions(AddCallerSkip(skip)).Error": {kind: "extstmt", f: "diag.Error", trace: "#ev"},
 			}},
 	}},
+	// internal/stacktrace Capture: the pooled *Stack is THE object of the field environment; runtime.Callers fills the
+	// slice it is handed and returns the count; slices are values (pcs and storage alias in Go: only their lengths and
+	// the final contents of pcs matter, see docs/TRANSLATOR.md)
+	{table: "TransCapture", funcs: []transFunc{
+		{file: "internal/stacktrace/stack.go", name: "Capture", lean: "Capture",
+			fields: map[string]fieldSpec{"pcs": {"pcs", "[]u64"}, "storage": {"storage", "[]u64"}, "frames": {"frames", "Frames"}},
+			recvAs: &fieldSpec{"self", "Stack"},
+			types:  map[string]string{"Depth": "int", "*Stack": "Stack", "uintptr": "u64"},
+			consts: map[string]string{"First": "src", "Full": "src"},
+			calls: map[string]shim{
+				"_stackPool.Get":        {kind: "object"},
+				"runtime.Callers":       {kind: "mutarg:1", f: "runtime.Callers", res: []string{"int"}},
+				"runtime.CallersFrames": {kind: "ext", f: "runtime.CallersFrames", res: []string{"Frames"}},
+				"make":                  {kind: "ext", f: "make.zeros", res: []string{"[]u64"}},
+			}},
+	}},
 	{table: "TransLogger", funcs: []transFunc{
 		{file: "logger.go", name: "terminalHookOverride", lean: "terminalHookOverride", types: loggerTypes, consts: hookConsts},
 		{file: "logger.go", recv: "Logger", name: "check", lean: "Logger_check",
